@@ -29,6 +29,7 @@ mod c20;
 mod c20x;
 mod ids;
 mod programs;
+mod truth;
 mod util;
 mod walfix_c10;
 
@@ -77,6 +78,7 @@ fn main() {
         "c16" => c16::run(&rest),
         "c17" => c17::run(&rest),
         "c18" => c18::run(&rest),
+        "truth" => truth::run(&rest),
         _ => {
             eprintln!("usage: echo-verif <ids|c04|...> args");
             2
